@@ -148,7 +148,7 @@ def run_all(ctx, scenarios, tag, procs=14, shard_bytes=5_000_000, shard_traces=6
     for tr in traces:
         if "error" in tr:
             raise core.Machinery("scenario %s crashed the harness: %s" % (tr["id"], tr["error"]))
-    tdir = os.path.join(core.OUT, "traces")
+    tdir = os.path.join(core.OUT, "traces", str(os.getpid()))
     os.makedirs(tdir, exist_ok=True)
     docs = []
     for sc, tr in zip(scenarios, traces):
